@@ -107,6 +107,11 @@ def make_record(vc, rid, case):
         mk = lambda **kw: vc.PointsPerIntervalSlicer(n, last_full=case["lastfull"], **kw)
         eps = 1e-9 * unitf
     shift = shift if kind in ("number", "width") else 0
+    if case.get("dtype"):
+        # integer-valued data handed over in a (narrow) integer type
+        if not np.array_equal(data, np.round(data)):
+            raise Machinery("dtype case with non-integer data")
+        data = data.astype(case["dtype"])
     data0 = data.copy()
     if case.get("reuse"):
         # history: ONE slicer object first slices another vector (different range), then this one
@@ -131,7 +136,7 @@ def make_record(vc, rid, case):
         try:
             sl, refs, bnds = mk(min_n_points=0, min_n_intervals=0).slice_(data)
         except Exception as e:  # noqa
-            rec.update(exc=type(e).__name__, raw=[], refsq=[], loq=[], hiq=[], onlat=True,
+            rec.update(exc=type(e).__name__, raw=[], refsq=[], loq=[], hiq=[], onlat=True, refedge=True,
                        contain=True, disjoint=True, minpts=minpts, minint=minint, kept=[],
                        keptrefs=[], raised=False)
             return rec
@@ -144,9 +149,14 @@ def make_record(vc, rid, case):
                 dst.append(q - shift if q != -1 or val == val else -1)
         ends = {"width": ("ropen" if rec["ropen"] else "lopen"),
                 "number": ("ropen+last" if rec["incmax"] else "ropen"), "points": "closed"}[kind]
-        contain, disjoint = _bounds_bits(data, sl, bnds, eps, ends)
+        contain, disjoint = _bounds_bits(np.asarray(data, dtype=float), sl, bnds, eps, ends)
+        # 'left' / 'right' references are (bitwise) the reported edges of their interval
+        refedge = True
+        if rec["refkind"] in ("left", "right") and kind in ("width", "number"):
+            j = 0 if rec["refkind"] == "left" else 1
+            refedge = all(float(r_) == float(b_[j]) for r_, b_ in zip(refs, bnds))
         rec.update(raw=masks_of(sl), refsq=refsq, loq=loq, hiq=hiq, onlat=bool(onlat),
-                   contain=bool(contain), disjoint=bool(disjoint))
+                   contain=bool(contain), disjoint=bool(disjoint), refedge=bool(refedge))
         # configured call
         eff_minpts, eff_minint = minpts, minint
         if kind == "points" and n < minpts:
@@ -242,6 +252,27 @@ def edge_maximum_cases(ctx):
                                minpts=mm[ci % 2][0], minint=mm[ci % 2][1])
 
 
+def narrow_int_cases(ctx):
+    """Integer-valued data in narrow integer types whose maximum lies near the type's limit: max + width and the mean of
+    two neighbouring values must not be computed in that type (D71)."""
+    rng = np.random.default_rng(ctx.seed + 171)
+    refs = ["center", "left", "right", "median"]
+    for t in range(ctx.pick(12, 60)):
+        dtype, top = [("int8", 126), ("uint8", 252), ("int8", 127), ("uint8", 255)][t % 4]
+        L = int(rng.integers(12, 50))
+        ks = [int(k) for k in rng.integers(0, top + 1, size=L)]
+        ks[0] = top if t % 2 == 0 else top - 1       # the maximum at (next to) the limit of the type
+        yield dict(kind="width", data=ks, unit="2", ropen=bool(t % 2), vrange=None, offset=0, reuse=False, ref=refs[t % 4],
+                   minpts=1, minint=1, dtype=dtype)
+        lo = {"int8": 60, "uint8": 130}[dtype]
+        ks2 = [int(k) for k in rng.integers(lo, top + 1, size=L)]
+        yield dict(kind="points", data=ks2, unit="1", n=max(1, L // 4), lastfull=bool(t % 2), reuse=False, ref="median",
+                   minpts=1, minint=1, dtype=dtype)
+        ks3 = [int(k) for k in rng.integers(17000, 32768, size=L)]
+        yield dict(kind="points", data=ks3, unit="1", n=max(1, L // 3), lastfull=bool(t % 2), reuse=False, ref="median",
+                   minpts=1, minint=1, dtype="int16")
+
+
 def random_cases(ctx):
     """Long vectors with ties / rounding / arbitrary order / value_range."""
     rng = np.random.default_rng(ctx.seed + 101)
@@ -316,6 +347,7 @@ def run(ctx):
     cl = list(cases(ctx))
     recs = judge(ctx, vc, cl, "lattice domain")
     judge(ctx, vc, list(edge_maximum_cases(ctx)), "maximum on the m-th edge")
+    judge(ctx, vc, list(narrow_int_cases(ctx)), "narrow integer types")
     ctx.sample({"case": cl[len(cl) // 2], "record": recs[len(cl) // 2]})
     rl = list(random_cases(ctx))
     recs2 = judge_offset(ctx, vc, rl, len(cl))
